@@ -194,8 +194,9 @@ async def _zip_inner_strict(
                 f"zip() argument {tried + 1} is shorter than argument{plural}{tried}"
             ) from None
         # after the first iterable was empty, some later iterable may be not
+        # the first iterable is known to be exhausted, do not poll it again
         sentinel = object()
-        for tried, _aiter in _sync_builtins.enumerate(aiters):
+        for tried, _aiter in _sync_builtins.enumerate(aiters[1:], 1):
             if await anext(_aiter, sentinel) is not sentinel:
                 plural = " " if tried == 1 else "s 1-"
                 raise ValueError(
